@@ -54,23 +54,24 @@ def renderChan (i : Nat) (c : Chan) : String :=
   let refs := joinOr ((sortNats c.refs).map toString) "+"
   s!"s{i}={c.gen}/{c.streams}/{state}{flags}/u{unread}/x{refs}/view={view}/ws={ws}"
 
-def renderRes (p : Key × RState) : String :=
+def renderRes (off : Nat) (p : Key × RState) : String :=
   let r := p.2
   let w := joinOr ((sortNats r.watchers).map toString) "+"
   let c := r.cache.getD "-"
   let v := if r.version = "" then "-" else r.version
   let e := match r.err with | none => "-" | some (t, ev) => t ++ "@" ++ ev
-  let ch := joinOr ((sortNats r.chans).map toString) "+"
+  let ch := joinOr ((sortNats (r.chans.map (· + off))).map toString) "+"
   s!"{p.1.typ}.{p.1.name}[w={w};c={c};st={showStatus r.status};v={v};e={e};di={if r.delIgnored then 1 else 0};ch={ch}]"
 
-def renderAuth (pre : String) (a : Auth) : String :=
-  let act := match a.active with | some x => toString x | none => "-"
-  let opn := joinOr ((sortNats a.opened).map toString) "+"
-  s!"{pre}act={act} {pre}open={opn} {pre}res={joinOr (sortStrs (a.res.map renderRes)) ","}"
+/-- server indices are printed as indices into the top-level server list (`off` = where this authority's list starts) -/
+def renderAuth (pre : String) (off : Nat) (a : Auth) : String :=
+  let act := match a.active with | some x => toString (x + off) | none => "-"
+  let opn := joinOr ((sortNats (a.opened.map (· + off))).map toString) "+"
+  s!"{pre}act={act} {pre}open={opn} {pre}res={joinOr (sortStrs (a.res.map (renderRes off))) ","}"
 
 def render (s : Sys) : String :=
   let srv := " ".intercalate ((List.range s.chans.length).map fun i => renderChan i (getChan s i))
-  s!"cb={renderCbs s.cbs} {srv} {renderAuth "" s.auth} {renderAuth "b" s.authB}"
+  s!"cb={renderCbs s.cbs} {srv} {renderAuth "" 0 s.auth} {renderAuth "b" s.boff s.authB}"
 
 def parseEntries (e : String) : Option (List (String × Upd)) :=
   if e = "-" then some [] else
@@ -103,14 +104,16 @@ def parseOp (n : Nat) (fs : List String) : Option Op :=
 
 def dstep : Step D := fun d fs impl =>
   match fs, d.s with
-  | ["cfg", n, ign, mon], none =>
-    match n.toNat? with
-    | some n =>
-      if 1 ≤ n ∧ n ≤ 3 ∧ ign.length = n then
+  | "cfg" :: n :: ign :: mon :: rest, none =>
+    -- optional 5th field: authority "b" is configured with the top-level servers from this index on
+    let boff? : Option Nat := match rest with | [] => some 0 | [b] => b.toNat? | _ => none
+    match n.toNat?, boff? with
+    | some n, some boff =>
+      if 1 ≤ n ∧ n ≤ 3 ∧ ign.length = n ∧ boff < n then
         let ignL := ign.toList.map (· == '1')
-        ({ s := some (Sys.init n ignL), mon := Spec.Mon.start n ignL mon }, "ok", "-")
+        ({ s := some (Sys.init n ignL boff), mon := Spec.Mon.start n ignL mon boff }, "ok", "-")
       else (d, "bad-op", "-")
-    | none => (d, "bad-op", "-")
+    | _, _ => (d, "bad-op", "-")
   | _, none => (d, if fs.head? = some "cfg" then "bad-op" else "nocfg", "-")
   | _, some s =>
     match parseOp s.chans.length fs with
